@@ -6,9 +6,9 @@ from .c06 import run_scenario, consistent
 
 AEON = 'v0 -> v1\nv1 -| v0\n'
 
-def native_rename(tree_json):
+def native_rename(tree_json, k=0):
     """native validate_props_and_rename_vars on the concrete tree vs the scope-checking / depth-naming oracle"""
-    r = front.native([{'op': 'text', 'what': 'rename_tree', 'tree': tree_json, 'aeon': AEON}])[0]
+    r = front.native([{'op': 'text', 'what': 'rename_tree', 'tree': tree_json, 'aeon': AEON, 'k': k}])[0]
     if 'fatal' in r or 'fatal_panic' in r: return [f'native failed: {r}']
     phi = TL.tree_from_json(r['built'])
     ok, exp, depth = TL.oracle_rename(PathCtx(), phi, ['v0', 'v1'])
@@ -21,7 +21,7 @@ def native_rename(tree_json):
     c = consistent(r['ok'])
     if c: diffs.append('preprocessed tree: ' + c)
     # idempotence and number of names
-    r2 = front.native([{'op': 'text', 'what': 'rename_tree', 'tree': r['ok'], 'aeon': AEON}])[0]
+    r2 = front.native([{'op': 'text', 'what': 'rename_tree', 'tree': r['ok'], 'aeon': AEON, 'k': k}])[0]
     if 'ok' not in r2 or r2['ok'] != r['ok']: diffs.append(f"preprocessing is not idempotent on {r['ok']['s']!r}: {r2.get('ok', r2)}")
     if r2.get('nvars') != depth: diffs.append(f"collect_unique_hctl_vars counts {r2.get('nvars')} names, maximal nesting depth is {depth}")
     return diffs
@@ -33,5 +33,7 @@ def run(chk):
                        'names': f'every slot has its own symbolic name of 1 (thorough: also 2) characters, so the solver decides every equality pattern between names (incl. names equal to x / xx); one proposition name is 2 symbolic characters (valid or invalid network variable)',
                        'outside': 'skeletons beyond the list; names longer than 2 characters'})
     run_scenario(chk, 'C07', 'c07', {'len': 1}, 'validate_props_and_rename_vars == scope checker + depth naming (accept/reject, exact tree, name count, idempotence), 1-character symbolic names', native_rename, 'rename')
+    psk = [i for i, sk in enumerate(TL.skeletons()) if 'P' in str(sk)]
+    run_scenario(chk, 'C07', 'c07', {'len': 1, 'k': 1, 'only': psk}, 'the same against a context with one auxiliary variable set (proposition names as long as the auxiliary BDD variable names)', lambda t: native_rename(t, 1), 'rename')
     if thorough: run_scenario(chk, 'C07', 'c07', {'len': 2}, 'the same with 2-character symbolic names', native_rename, 'rename')
-    else: run_scenario(chk, 'C07', 'c07', {'len': 2, 'only': [0, 1, 2, 6, 7, 9, 13, 16, 19, 21]}, 'the same with 2-character symbolic names (10 skeletons)', native_rename, 'rename')
+    else: run_scenario(chk, 'C07', 'c07', {'len': 2, 'only': [0, 1, 2, 6, 7, 9, 13, 16, 19, 21, 23, 24, 25]}, 'the same with 2-character symbolic names (13 skeletons)', native_rename, 'rename')
